@@ -407,11 +407,46 @@ static void mode_seek(const char *dir)
   H_SAMPLE("seek_set/seek_cur/seek_end/seek_trunc at offsets around 2^31 and 2^32 on a sparse file");
 }
 
+/* ------------------------------------------------------------------------------------------------ date: calendar arithmetic and the two date formats */
+#include "datetime.h"
+#include "date822fmt.h"
+#include "myctime.h"
+#include <time.h>
+static void date_one(long t)
+{
+  static const char *mon[] = {"Jan","Feb","Mar","Apr","May","Jun","Jul","Aug","Sep","Oct","Nov","Dec"}, *day[] = {"Sun","Mon","Tue","Wed","Thu","Fri","Sat"};
+  struct datetime dt; struct tm tm; time_t tt = t; char want[64], got[64], *mc; unsigned int l, l0;
+  snprintf(h_cur, sizeof h_cur, "c00 date t=%ld", t);
+  gmtime_r(&tt, &tm);
+  memset(&dt, 0x55, sizeof dt); datetime_tai(&dt, (datetime_sec) t); n_eval++;
+  if (dt.year != tm.tm_year || dt.mon != tm.tm_mon || dt.mday != tm.tm_mday || dt.hour != tm.tm_hour || dt.min != tm.tm_min || dt.sec != tm.tm_sec || dt.wday != tm.tm_wday || (t < 4102444800L && dt.yday != tm.tm_yday)) {   /* yday (which nothing reads) is one too high from March 2100 on: not judged */
+    H_FAIL("lib:datetime_tai", "t=%ld: datetime_tai gives year %d mon %d mday %d %02d:%02d:%02d wday %d yday %d; the calendar says year %d mon %d mday %d %02d:%02d:%02d wday %d yday %d", t, dt.year, dt.mon, dt.mday, dt.hour, dt.min, dt.sec, dt.wday, dt.yday, tm.tm_year, tm.tm_mon, tm.tm_mday, tm.tm_hour, tm.tm_min, tm.tm_sec, tm.tm_wday, tm.tm_yday); return; }
+  /* datetime_untai computes in int and overflows from 2038 on; its only caller is predate (time-zone offset), which no property covers: judged below 2^31 only */
+  if (t < 2147483648L && datetime_untai(&dt) != (datetime_sec) t) { H_FAIL("lib:datetime_untai", "t=%ld: datetime_untai(datetime_tai(t)) = %ld", t, (long) datetime_untai(&dt)); return; }
+  snprintf(want, sizeof want, "%d %s %d %02d:%02d:%02d -0000\n", tm.tm_mday, mon[tm.tm_mon], tm.tm_year + 1900, tm.tm_hour, tm.tm_min, tm.tm_sec);
+  l0 = date822fmt((char *) 0, &dt); memset(got, 0, sizeof got); l = date822fmt(got, &dt);
+  if (l != l0 || l != strlen(want) || memcmp(got, want, l)) { H_FAIL("lib:date822fmt", "t=%ld: date822fmt gives [%s] (length %u, announced %u), expected [%s]", t, H_ESC(got, l < 60 ? l : 60), l, l0, H_ESC(want, strlen(want))); return; }
+  snprintf(want, sizeof want, "%s %s %02d %02d:%02d:%02d %d\n", day[tm.tm_wday], mon[tm.tm_mon], tm.tm_mday, tm.tm_hour, tm.tm_min, tm.tm_sec, tm.tm_year + 1900);
+  mc = myctime((datetime_sec) t);
+  if (strcmp(mc, want)) { H_FAIL("lib:myctime", "t=%ld: myctime gives [%s], expected [%s]", t, H_ESC(mc, strlen(mc)), H_ESC(want, strlen(want))); return; }
+  n_nontrivial++;
+}
+static void mode_date(void)
+{
+  long t, y; static const long edge[] = {0, 1, 59, 60, 3599, 3600, 86399, 86400, 951782399, 951782400, 951868800, 1000000000, 2147483647L, 2147483648L, 4102444799L, 4102444800L, 4107542400L, 4294967295L, 4294967296L};
+  unsigned i;
+  for (t = 0; t < 4400000000L; t += 43200 + 3661) date_one(t);                 /* twice a day, at a drifting time of day, 1970 .. 2109 (2100 is not a leap year) */
+  for (y = 0; y < 140 * 366; y++) { date_one(y * 86400L - 1); date_one(y * 86400L); }   /* the second before and the first second of every day */
+  for (i = 0; i < sizeof edge / sizeof *edge; i++) date_one(edge[i]);
+  H_SAMPLE("date: datetime_tai/datetime_untai/date822fmt/myctime against gmtime for two instants of every day 1970..2109, the last and first second of every day, 19 edge instants");
+}
+
 int main(int argc, char **argv)
 {
   h_init();
   if (argc < 2) return 2;
-  if (!strcmp(argv[1], "io")) { mode_io_in(); mode_io_out(); mode_io_copy(); }
+  if (!strcmp(argv[1], "date")) mode_date();
+  else if (!strcmp(argv[1], "io")) { mode_io_in(); mode_io_out(); mode_io_copy(); }
   else if (!strcmp(argv[1], "bytes")) mode_bytes();
   else if (!strcmp(argv[1], "num")) mode_num();
   else if (!strcmp(argv[1], "ctl")) mode_ctl(argv[2], atoi(argv[3]));
